@@ -4,8 +4,8 @@ set -u
 n=$1
 cd /verif || exit 2
 git merge --no-edit b-$n 2>&1 | tail -3
-git rm -q --cached lean/Rpft.lean lean/Rpft/Gen/Tables.lean 2>/dev/null
-python3 resolve_union.py lean/Driver.lean known_findings.jsonl 2>/dev/null
+git rm -q --cached lean/Rpft.lean lean/Rpft/Gen/Tables.lean lean/Driver.lean 2>/dev/null
+python3 resolve_union.py lean/Driver.lean known_findings.jsonl lean/driver_ops.txt 2>/dev/null
 ( cd lean && python3 - <<'PY'
 import os,re
 names=[]
@@ -18,9 +18,6 @@ for f in sorted(os.listdir('Rpft/Drv')):
             s=re.sub(r"\nend Rpft\.Drv\s*$", f"\nend Rpft.Drv.{n}D\n", s)
             open(p,'w').write(s)
     names.append(n)
-p='Driver.lean'; s=open(p).read()
-s=re.sub(r"open Lean Rpft\.Drv[^\n]*\n", "open Lean Rpft.Drv "+" ".join(f"Rpft.Drv.{n}D" for n in names)+"\n", s)
-open(p,'w').write(s)
 PY
 )
 grep -n "<<<<<<<\|>>>>>>>" -r lean/Driver.lean known_findings.jsonl harness *.py *.md 2>/dev/null | head
